@@ -6,6 +6,7 @@ import (
 	"math/rand"
 	"reflect"
 	"runtime"
+	"strings"
 	"sync"
 	"time"
 
@@ -1128,5 +1129,97 @@ func runC15ArgSnapshot(c *CaseCtx, r *rand.Rand) (res CaseResult) {
 		res.violate("C15", "arg-not-a-snapshot", fmt.Sprintf("the option made by Arg() when the set held #1 injected #%d (err %v) after the set was changed to #2", got, rr.Err()), det)
 	}
 	res.Sample = det
+	return res
+}
+
+// runC19NilVertex: histories over the vertices {nil interface, 1, 2}. The
+// nil interface value is accepted as a vertex by every mutator; the ordinary
+// C19 oracle cannot judge such graphs (it reads a nil entry in OutEdges as a
+// dangling edge), so this family compares the structural snapshot (hash-keyed
+// adjacency maps and vertex table) with a plain model after every operation.
+func runC19NilVertex(c *CaseCtx, r *rand.Rand) (res CaseResult) {
+	res.NonTrivial = true
+	res.obs("family.nil-vertex", 1)
+	verts := []interface{}{nil, 1, 2}
+	present := map[int]bool{}
+	edges := map[[2]int]int{}
+	var g am.VerifGraph
+	var trace []string
+	det := func() interface{} { return map[string]interface{}{"ops": strings.Join(trace, " ; ")} }
+	defer func() {
+		if p := recover(); p != nil {
+			res.violate("C19", "panic/"+crashKey(fmt.Sprint(p)), fmt.Sprintf("graph operation panicked: %v", p), det())
+		}
+	}()
+	nops := 4 + r.Intn(14)
+	for k := 0; k < nops; k++ {
+		a, b := r.Intn(3), r.Intn(3)
+		switch op := r.Intn(7); {
+		case op <= 1:
+			g.Add(verts[a])
+			present[a] = true
+			trace = append(trace, fmt.Sprintf("Add(%v)", verts[a]))
+		case op == 2:
+			g.AddOverwrite(verts[a])
+			present[a] = true
+			trace = append(trace, fmt.Sprintf("AddOverwrite(%v)", verts[a]))
+		case op <= 4:
+			w := r.Intn(5)
+			g.AddEdgeWeighted(verts[a], verts[b], w)
+			if present[a] && present[b] {
+				edges[[2]int{a, b}] = w
+			}
+			trace = append(trace, fmt.Sprintf("AddEdgeWeighted(%v,%v,%d)", verts[a], verts[b], w))
+		case op == 5:
+			g.RemoveEdge(verts[a], verts[b])
+			delete(edges, [2]int{a, b})
+			trace = append(trace, fmt.Sprintf("RemoveEdge(%v,%v)", verts[a], verts[b]))
+		default:
+			g.Remove(verts[a])
+			delete(present, a)
+			for e := range edges {
+				if e[0] == a || e[1] == a {
+					delete(edges, e)
+				}
+			}
+			trace = append(trace, fmt.Sprintf("Remove(%v)", verts[a]))
+		}
+		res.Evals++
+		s := takeSnap(&g)
+		for _, p := range s.mirrorProblems() {
+			res.violate("C19", "mirror", p, det())
+		}
+		for i, v := range verts {
+			if _, ok := s.hash[v]; ok != present[i] {
+				res.violate("C19", "vertex-set", fmt.Sprintf("vertex %v in the vertex table = %v, model %v", v, ok, present[i]), det())
+			}
+		}
+		n := 0
+		for x, m := range s.out {
+			for y, w := range m {
+				n++
+				ix, iy := -1, -1
+				for i, v := range verts {
+					if v == x {
+						ix = i
+					}
+					if v == y {
+						iy = i
+					}
+				}
+				if mw, ok := edges[[2]int{ix, iy}]; !ok || mw != w {
+					res.violate("C19", "successors", fmt.Sprintf("edge %v->%v (%d) is not in the model (model weight %d, present %v)", x, y, w, mw, ok), det())
+				}
+			}
+		}
+		if n != len(edges) {
+			res.violate("C19", "successors", fmt.Sprintf("the graph has %d edges, the model %d", n, len(edges)), det())
+		}
+		if len(res.Violations) > 0 {
+			break
+		}
+	}
+	res.Key = strings.Join(trace, ";")
+	res.Sample = map[string]interface{}{"ops": strings.Join(trace, " ; ")}
 	return res
 }
